@@ -169,6 +169,13 @@ class History:
                 return self.op('expire', e.name, r.choice([c.inbound_spi, c.inbound_spi, c.outbound_spi]), r.random() < 0.4)
             return self.op('acquire', ep.name, 0)
         if t < 0.6:
+            kids = [(e, c) for e in eps for s in e.sas() for c in s.child_sas]
+            if kids and r.random() < 0.6:
+                # an SPI nobody owns, made of octets that some CHILD_SA does have: a window across inbound||outbound or outbound||inbound
+                e, c = r.choice(kids)
+                cat = r.choice([bytes(c.inbound_spi) + bytes(c.outbound_spi), bytes(c.outbound_spi) + bytes(c.inbound_spi)])
+                k = r.randrange(1, 4)
+                return self.op('expire', e.name, cat[k:k + 4], r.random() < 0.5)
             return self.op('expire', ep.name, bytes(r.getrandbits(8) for _ in range(4)), r.random() < 0.5)
         if t < 0.65:
             return self.op('status', ep.name)
